@@ -13,6 +13,12 @@ for i, l in enumerate(lines):
             ex[key] = (m.group(2) or "") + " " + lines[i + 1].strip()[:160]
 for k, n in sorted(c.items()):
     print(n, *k); print("     e.g.", ex.get(k, ""))
+inc = collections.Counter()
 for l in lines:
-    if l.startswith("SUMMARY") or l.startswith("VIOLATION") and False: print(l)
-    if l.startswith("INCONCLUSIVE") and "did not replay" not in l: print(l[:260])
+    if l.startswith("INCONCLUSIVE") and "did not replay" not in l:
+        m = re.match(r"INCONCLUSIVE property=\S+ (VX_\w+)\S* (?:path \[[^\]]*\]|(\S+) at \S+): (.*)", l)
+        inc[(m.group(1), m.group(2) or "", m.group(3)[:150]) if m else ("?", "", l[:200])] += 1
+for k, n in sorted(inc.items()):
+    print("INCONCLUSIVE x%d" % n, *k)
+for l in lines:
+    if l.startswith("SUMMARY"): print(l)
